@@ -97,6 +97,7 @@ def _build_spec():
     spec = {}
     a = vs("reference_beats", "estimated_beats")
     spec["beat"] = (["reference_beats", "estimated_beats"], [], [
+        call("beat.validate", [], a, passkw=False),
         call("beat.trim_beats", vs("reference_beats"), vs("reference_beats")),
         call("beat.trim_beats", vs("estimated_beats"), vs("estimated_beats")),
         call("beat.f_measure", sc("F-measure"), a),
@@ -297,7 +298,9 @@ def run_spec(task, inputs, kw):
             for k, v in c.forced:
                 extra[k] = _spec_value(v)
         res = f(*args, **named, **extra)
-        if len(c.targets) == 1:
+        if len(c.targets) == 0:
+            vals = []                 # result discarded (validate)
+        elif len(c.targets) == 1:
             vals = [res]
         else:
             if not isinstance(res, (tuple, list)) or len(res) != len(c.targets):
@@ -620,7 +623,7 @@ def same_value(a, b):
 
 def check_evaluate(inp, mask=()):
     """None when `task.evaluate(x, **kw)` is exactly the documented bundle on this input, else what failed.
-    `mask`: score keys whose value is not judged (used only by the region predicates of known findings)."""
+    `mask`: score keys whose value is not judged (for region predicates of known findings; none at present)."""
     task, d, kw = inp["task"], inp["data"], dict(inp.get("kw") or {})
     module = getattr(mir_eval, task)
     names = SPEC[task][0]
